@@ -152,3 +152,98 @@ Proof.
   - destruct (fmul_sign s (fclamp mfloor mceil f) Fs Fc) as [Hnn Hs]. split; [exact Hnn|].
     apply nonneg_of_sign; [exact Hnn|]. rewrite Hs, Ss, Sc. reflexivity.
 Qed.
+
+(** ** inside [2^-900, 2^900] the scale stays finite and strictly positive
+    (the factor is at most 10^12 < 2^40 either way, so neither overflow nor underflow to 0) *)
+Definition tame_lo : f64 := of_bits 0x07B0000000000000.   (* 2^-900 *)
+Definition tame_hi : f64 := of_bits 0x7830000000000000.   (* 2^900 *)
+Definition p2_m40 : f64 := of_bits 0x3D70000000000000.    (* 2^-40 *)
+Definition p2_40 : f64 := of_bits 0x4270000000000000.     (* 2^40 *)
+
+Local Open Scope R_scope.
+
+Lemma pow2_value (x : f64) (k : Z) :
+  (exists H, x = B754_finite false 4503599627370496 (k - 52) H) -> B2R x = bpow radix2 k.
+Proof.
+  intros [H ->]. cbn [B2R]. unfold F2R. cbn [Fnum Fexp cond_Zopp].
+  change (IZR 4503599627370496) with (bpow radix2 52). rewrite <- bpow_plus. f_equal. lia.
+Qed.
+
+Ltac pow2_tac c k :=
+  apply (pow2_value c k);
+  let E := fresh "E" in
+  destruct c as [s|s| |s m e H] eqn:E; try (vm_compute in E; discriminate);
+  destruct s; [vm_compute in E; discriminate|];
+  assert (Hm : m = 4503599627370496%positive /\ e = (k - 52)%Z) by (vm_compute in E; inversion E; split; reflexivity);
+  destruct Hm as [-> ->]; exists H; reflexivity.
+
+Lemma tame_lo_R : B2R tame_lo = bpow radix2 (-900).  Proof. pow2_tac tame_lo (-900)%Z. Qed.
+Lemma tame_hi_R : B2R tame_hi = bpow radix2 900.  Proof. pow2_tac tame_hi 900%Z. Qed.
+Lemma p2_m40_R : B2R p2_m40 = bpow radix2 (-40).  Proof. pow2_tac p2_m40 (-40)%Z. Qed.
+Lemma p2_40_R : B2R p2_40 = bpow radix2 40.  Proof. pow2_tac p2_40 40%Z. Qed.
+
+Lemma fle_R a b : fin a = true -> fin b = true -> fle a b = true -> B2R a <= B2R b.
+Proof.
+  intros Fa Fb H. unfold fle, Bleb, SpecFloat.SFleb in H. fold (Bcompare a b) in H.
+  rewrite (bcompare_fin a b Fa Fb) in H.
+  destruct (Rcompare_spec (B2R a) (B2R b)); try discriminate; lra.
+Qed.
+
+Lemma floor_ceil_facts :
+  fin mfloor = true /\ fin mceil = true /\ fle p2_m40 mfloor = true /\ fle mceil p2_40 = true /\
+  fin p2_m40 = true /\ fin p2_40 = true /\ fin tame_lo = true /\ fin tame_hi = true.
+Proof. vm_compute. repeat split. Qed.
+
+(** the clamped factor lies between floor and ceil *)
+Lemma clamp_bounds f : fnan f = false ->
+  let c := fclamp mfloor mceil f in fin c = true /\ B2R mfloor <= B2R c <= B2R mceil.
+Proof.
+  intros Nf. destruct floor_ceil_facts as (Fl & Fh & _).
+  assert (Hlh : B2R mfloor <= B2R mceil).
+  { apply fle_R; [exact Fl|exact Fh|vm_compute; reflexivity]. }
+  unfold fclamp. cbv zeta.
+  destruct (flt f mfloor) eqn:E1; [split; [exact Fl|lra]|].
+  destruct (flt mceil f) eqn:E2; [split; [exact Fh|lra]|].
+  (* f is not NaN, not below floor, not above ceil: finite and in between *)
+  destruct mfloor_shape as (ml & el & Hl & El). destruct mceil_shape as (mh & eh & Hh & Eh).
+  assert (Ff : fin f = true).
+  { rewrite El in E1. rewrite Eh in E2. destruct f as [s|s| |s m e H]; try reflexivity; try discriminate.
+    destruct s; cbn in E1, E2; discriminate. }
+  split; [exact Ff|]. split.
+  - assert (G : fle mfloor f = true) by (apply flt_false_fle; auto). apply fle_R; auto.
+  - assert (G : fle f mceil = true) by (apply flt_false_fle; auto). apply fle_R; auto.
+Qed.
+
+Theorem rescale_keeps_pos_fin s f :
+  fin s = true -> fle tame_lo s = true -> fle s tame_hi = true -> fnan f = false ->
+  fin (rescale s f) = true /\ flt fzero (rescale s f) = true.
+Proof.
+  intros Fs Hlo Hhi Nf.
+  destruct floor_ceil_facts as (Fl & Fh & Hfl & Hch & F1 & F2 & F3 & F4).
+  destruct (clamp_bounds f Nf) as [Fc [Hc1 Hc2]]. set (c := fclamp mfloor mceil f) in *.
+  pose proof (fle_R _ _ F3 Fs Hlo) as S1. pose proof (fle_R _ _ Fs F4 Hhi) as S2.
+  pose proof (fle_R _ _ F1 Fl Hfl) as C1. pose proof (fle_R _ _ Fh F2 Hch) as C2.
+  rewrite tame_lo_R in S1. rewrite tame_hi_R in S2. rewrite p2_m40_R in C1. rewrite p2_40_R in C2.
+  set (x := B2R s * B2R c).
+  assert (P1 : 0 < bpow radix2 (-900)) by apply bpow_gt_0.
+  assert (P2 : 0 < bpow radix2 (-40)) by apply bpow_gt_0.
+  assert (X1 : bpow radix2 (-940) <= x).
+  { replace (-940)%Z with (-900 + -40)%Z by lia. rewrite bpow_plus. unfold x. apply Rmult_le_compat; lra. }
+  assert (X2 : x <= bpow radix2 940).
+  { replace 940%Z with (900 + 40)%Z by lia. rewrite bpow_plus. unfold x. apply Rmult_le_compat; lra. }
+  assert (R1 : bpow radix2 (-940) <= round radix2 (SpecFloat.fexp 53 1024) (round_mode mode_NE) x).
+  { apply round_ge_generic; [apply fexp_correct; reflexivity | apply valid_rnd_N | | exact X1].
+    apply generic_format_bpow. unfold SpecFloat.fexp, SpecFloat.emin. lia. }
+  assert (R2 : round radix2 (SpecFloat.fexp 53 1024) (round_mode mode_NE) x <= bpow radix2 940).
+  { apply round_le_generic; [apply fexp_correct; reflexivity | apply valid_rnd_N | | exact X2].
+    apply generic_format_bpow. unfold SpecFloat.fexp, SpecFloat.emin. lia. }
+  assert (P3 : 0 < bpow radix2 (-940)) by apply bpow_gt_0.
+  pose proof (Bmult_correct 53 1024 prec_gt_0_53 prec_lt_emax_53 mode_NE s c) as H. fold x in H.
+  rewrite Rlt_bool_true in H.
+  - destruct H as (Hv & Hf & _). unfold rescale. fold c. unfold fmul. unfold fin in *. rewrite Hf, Fs, Fc.
+    split; [reflexivity|].
+    unfold flt, Bltb, SpecFloat.SFltb. fold (Bcompare fzero (Bmult mode_NE s c)).
+    rewrite (bcompare_fin fzero (Bmult mode_NE s c) eq_refl); [|unfold fin; rewrite Hf, Fs, Fc; reflexivity].
+    rewrite Hv. change (B2R fzero) with 0. rewrite Rcompare_Lt; [reflexivity|lra].
+  - rewrite Rabs_pos_eq by lra. eapply Rle_lt_trans; [exact R2|]. apply bpow_lt. lia.
+Qed.
